@@ -70,7 +70,9 @@ template <class T> struct Driver {
             case SUM: case MSUM: for (auto v : x) { ex += v; scale += fabsl(v); } break;
             case PRODUCT: case MPRODUCT: { ex = 1; long double P = 1; for (auto v : x) { ex *= v; P *= fabsl(v) > 1 ? fabsl(v) : 1; } scale = P;
                 // every partial product of every lane is an integer of magnitude <= P: exact while P fits the significand
-                if (std::is_floating_point<T>::value && P >= (sizeof(T) == 4 ? 16777216.0L : 9007199254740992.0L)) exact = false; } break;
+                if (std::is_floating_point<T>::value && P >= (sizeof(T) == 4 ? 16777216.0L : 9007199254740992.0L)) exact = false;
+                // some association of the factors may leave the finite range: then inf/nan is a correct answer too and nothing is judged
+                if (std::is_floating_point<T>::value && P > (long double)std::numeric_limits<T>::max() / 4) { fx.route("skipped.fp_overflow"); return; } } break;
             case MIN: ex = x[0]; for (auto v : x) if (v < ex) ex = v; exact = true; break;
             case MAX: ex = x[0]; for (auto v : x) if (v > ex) ex = v; exact = true; break;
             case NORM: for (auto v : x) ex += v * v; ex = sqrtl(ex); scale = ex; exact = false; break;
